@@ -11,6 +11,6 @@ CONSTANTS SlotDur = 3
  AttOffs = {0}
  ProMenu = {1}
  SyncMenu = {2}
- Starts = {0, 4}
+ Starts = {4}
 INVARIANTS AtMostOnce OnlyAssigned NotEarly TickOrder TickNotEarly Complete TruthOK TickFresh
 CHECK_DEADLOCK FALSE
